@@ -73,17 +73,38 @@ def is_fresh_container_expr(node):
     return False
 
 
-def _alias_sources(fn, name):
+def _alias_sources(fn, name, _seen=None):
     """Right-hand sides that bind `name` to an object that exists elsewhere (attribute,
     subscript, parameter, other name)."""
     out = []
     params = {a.arg for a in fn.args.args + fn.args.kwonlyargs}
     if name in params:
         out.append("a parameter")
+    def alternatives(v):
+        # the values an expression may evaluate to, as far as aliasing goes
+        if isinstance(v, ast.IfExp):
+            return alternatives(v.body) + alternatives(v.orelse)
+        if isinstance(v, ast.BoolOp):
+            return [a for x in v.values for a in alternatives(x)]
+        return [v]
+    _seen = _seen if _seen is not None else set()
+    _seen.add(name)
     for n in ast.walk(fn):
+        value = None
         if isinstance(n, ast.Assign) and any(isinstance(t, ast.Name) and t.id == name for t in n.targets):
-            v = n.value
-            if isinstance(v, (ast.Attribute, ast.Subscript, ast.Name)) and not (isinstance(v, ast.Subscript) and isinstance(v.slice, ast.Slice)):
+            value = n.value
+        elif isinstance(n, ast.AnnAssign) and isinstance(n.target, ast.Name) and n.target.id == name and n.value is not None:
+            value = n.value
+        if value is None:
+            continue
+        for v in alternatives(value):
+            if isinstance(v, ast.Name):
+                # another local: an alias of whatever that one is bound to
+                if v.id not in _seen and _alias_sources(fn, v.id, _seen):
+                    out.append(f"{v.id} (itself bound to an existing object)")
+                elif v.id in params:
+                    out.append(ast.unparse(v))
+            elif isinstance(v, (ast.Attribute, ast.Subscript)) and not (isinstance(v, ast.Subscript) and isinstance(v.slice, ast.Slice)):
                 out.append(ast.unparse(v))
     return out
 
